@@ -45,6 +45,7 @@ structure Sim (T : List String → List String → Prop) (a b : St) : Prop where
   errors : a.errors = b.errors
   trace : T a.trace b.trace
   queue : evsOf a.queue = evsOf b.queue
+  expCut : a.expCut = b.expCut
 
 theorem map_erase_eq_iff (l1 l2 : List QEv) :
     l1.map (fun q => (⟨q.ev, false⟩ : QEv)) = l2.map (fun q => (⟨q.ev, false⟩ : QEv)) ↔ evsOf l1 = evsOf l2 := by
@@ -61,50 +62,53 @@ theorem map_erase_eq_iff (l1 l2 : List QEv) :
 theorem sim_eq_iff (a b : St) : Sim Eq a b ↔ eraseQ a = eraseQ b := by
   constructor
   · intro h
-    obtain ⟨h1, h2, h3, h4, h5, h6, h7, h8⟩ := h
+    obtain ⟨h1, h2, h3, h4, h5, h6, h7, h8, h9⟩ := h
     cases a; cases b
     simp only [eraseQ] at *
-    subst h1 h2 h3 h4 h5 h6 h7
+    subst h1 h2 h3 h4 h5 h6 h7 h9
     simp only [St.mk.injEq, true_and, and_true]
     exact (map_erase_eq_iff _ _).2 h8
   · intro h
     cases a; cases b
     simp only [eraseQ, St.mk.injEq] at h
-    obtain ⟨h1, h2, h3, h4, h5, h6, h7, _, h9⟩ := h
-    exact ⟨h1, h2, h4, h7, h6, h9, h5, (map_erase_eq_iff _ _).1 h3⟩
+    obtain ⟨h1, h2, h3, h4, h5, h6, h7, _, h9, h10⟩ := h
+    exact ⟨h1, h2, h4, h7, h6, h9, h5, (map_erase_eq_iff _ _).1 h3, h10⟩
 
 section sim
 variable {T : List String → List String → Prop} {a b : St}
 
 theorem Sim.refl (hr : ∀ l, T l l) (s : St) : Sim T s s :=
-  ⟨rfl, rfl, rfl, rfl, rfl, rfl, hr _, rfl⟩
+  ⟨rfl, rfl, rfl, rfl, rfl, rfl, hr _, rfl, rfl⟩
 
 theorem Sim.emit (h : Sim T a b) {r1 r2 : String} (hr : T (r1 :: a.trace) (r2 :: b.trace)) :
     Sim T (emit r1 a) (emit r2 b) :=
-  ⟨h.cfg, h.hist, h.status, h.ctx, h.err, h.errors, hr, h.queue⟩
+  ⟨h.cfg, h.hist, h.status, h.ctx, h.err, h.errors, hr, h.queue, h.expCut⟩
 
 theorem Sim.setCtx (h : Sim T a b) (c : Ctx) : Sim T { a with ctx := c } { b with ctx := c } :=
-  ⟨h.cfg, h.hist, h.status, rfl, h.err, h.errors, h.trace, h.queue⟩
+  ⟨h.cfg, h.hist, h.status, rfl, h.err, h.errors, h.trace, h.queue, h.expCut⟩
 
 theorem Sim.setCfg (h : Sim T a b) {c1 c2 : List Path} (hc : c1 = c2) : Sim T { a with cfg := c1 } { b with cfg := c2 } :=
-  ⟨hc, h.hist, h.status, h.ctx, h.err, h.errors, h.trace, h.queue⟩
+  ⟨hc, h.hist, h.status, h.ctx, h.err, h.errors, h.trace, h.queue, h.expCut⟩
 
 theorem Sim.setHist (h : Sim T a b) {c1 c2 : List (Path × List Path)} (hc : c1 = c2) :
     Sim T { a with hist := c1 } { b with hist := c2 } :=
-  ⟨h.cfg, hc, h.status, h.ctx, h.err, h.errors, h.trace, h.queue⟩
+  ⟨h.cfg, hc, h.status, h.ctx, h.err, h.errors, h.trace, h.queue, h.expCut⟩
 
 theorem Sim.setErr (h : Sim T a b) (e : Option EErr) : Sim T { a with err := e } { b with err := e } :=
-  ⟨h.cfg, h.hist, h.status, h.ctx, rfl, h.errors, h.trace, h.queue⟩
+  ⟨h.cfg, h.hist, h.status, h.ctx, rfl, h.errors, h.trace, h.queue, h.expCut⟩
+
+theorem Sim.setExpCut (h : Sim T a b) (x : Bool) : Sim T { a with expCut := x } { b with expCut := x } :=
+  ⟨h.cfg, h.hist, h.status, h.ctx, h.err, h.errors, h.trace, h.queue, rfl⟩
 
 theorem Sim.setStatus (h : Sim T a b) (st : String) : Sim T { a with status := st } { b with status := st } :=
-  ⟨h.cfg, h.hist, rfl, h.ctx, h.err, h.errors, h.trace, h.queue⟩
+  ⟨h.cfg, h.hist, rfl, h.ctx, h.err, h.errors, h.trace, h.queue, h.expCut⟩
 
 theorem Sim.setDepth (h : Sim T a b) (n : Nat) : Sim T { a with raiseDepth := n } b :=
-  ⟨h.cfg, h.hist, h.status, h.ctx, h.err, h.errors, h.trace, h.queue⟩
+  ⟨h.cfg, h.hist, h.status, h.ctx, h.err, h.errors, h.trace, h.queue, h.expCut⟩
 
 theorem Sim.setQueue (h : Sim T a b) {q1 q2 : List QEv} (hq : evsOf q1 = evsOf q2) :
     Sim T { a with queue := q1 } { b with queue := q2 } :=
-  ⟨h.cfg, h.hist, h.status, h.ctx, h.err, h.errors, h.trace, hq⟩
+  ⟨h.cfg, h.hist, h.status, h.ctx, h.err, h.errors, h.trace, hq, h.expCut⟩
 
 theorem Sim.fail (h : Sim T a b) (e : EErr) : Sim T (a.fail e) (b.fail e) := by
   unfold St.fail
@@ -140,7 +144,15 @@ theorem Sim.assignStep (h : Sim T a b) (canon : String) (cut : Bool) (x : Action
     Sim T (assignStep canon cut x a) (assignStep canon cut x b) := by
   unfold XSM.assignStep
   split
-  · rw [h.ctx]; exact h.setCtx _
+  · exact h.setExpCut _
+  · split
+    · rw [h.ctx]; exact h.setCtx _
+    · exact h
+
+theorem Sim.endExpansion (h : Sim T a b) (f : Nat) : Sim T (endExpansion f a) (endExpansion f b) := by
+  unfold XSM.endExpansion
+  split
+  · exact h.setExpCut _
   · exact h
 
 theorem Sim.enqueueQ (h : Sim T a b) (f1 f2 : Bool) (e : Ev) : Sim T (enqueueQ f1 e a) (enqueueQ f2 e b) := by
@@ -214,7 +226,7 @@ theorem builtinStep_sim (hh : HSim R T h1 h2 e1 e2) (n1 n2 : List ActionRef → 
     (builtinStep h1 n1 cut e1 canon x a).2 = (builtinStep h2 n2 cut e2 canon x b).2 := by
   unfold builtinStep
   simp only
-  rw [pickBranch_sim hh hs.cfg hs.ctx]
+  rw [pickBranch_sim hh hs.cfg hs.ctx, hs.expCut]
   split
   · exact ⟨hh.emit hs (hh.refl _), rfl⟩
   · rename_i fs _
@@ -268,7 +280,7 @@ theorem execActionsF_sim (hh : HSim R T h1 h2 e1 e2) :
   | succ f ih =>
     intro as a b hs
     simp only [execActionsF]
-    exact foldl_actStep_sim hh _ _ (fun as a b h => ih as a b h) false as _ _ hs rfl
+    exact foldl_actStep_sim hh _ _ (fun as a b h => (ih as a b h).endExpansion _) false as _ _ hs rfl
 
 theorem execActions_sim (hh : HSim R T h1 h2 e1 e2) (as : List ActionRef) {a b : St} (hs : Sim T a b) :
     Sim T (execActions h1 as e1 a) (execActions h2 as e2 b) :=
@@ -622,6 +634,9 @@ theorem dropDead_fields (s : St) :
     (dropDead s).ctx = s.ctx ∧ (dropDead s).err = s.err ∧ (dropDead s).errors = s.errors ∧
     (dropDead s).trace = s.trace ∧ (dropDead s).raiseDepth = s.raiseDepth := by
   unfold dropDead; split <;> exact ⟨rfl, rfl, rfl, rfl, rfl, rfl, rfl, rfl⟩
+
+theorem dropDead_expCut (s : St) : (dropDead s).expCut = s.expCut := by
+  unfold dropDead; split <;> rfl
 
 theorem Sim.agree {a b : St} (h : Sim T a b) : Agrees T a b := by
   unfold Agrees
@@ -1280,24 +1295,26 @@ variable {T : List String → List String → Prop} {m : Machine} {u : UEnv}
 theorem agree_iff (a b : St) :
     Agrees T a b ↔
       (a.cfg = b.cfg ∧ a.hist = b.hist ∧ a.status = b.status ∧ a.ctx = b.ctx ∧ a.err = b.err ∧
-       a.errors = b.errors ∧ T a.trace b.trace ∧ (a.status = "running" → evsOf a.queue = evsOf b.queue)) := by
+       a.errors = b.errors ∧ T a.trace b.trace ∧ (a.status = "running" → evsOf a.queue = evsOf b.queue) ∧
+       a.expCut = b.expCut) := by
   constructor
   · intro h
     have hst := h.status
-    obtain ⟨h1, h2, h3, h4, h5, h6, h7, h8⟩ := (show Sim T (dropDead a) (dropDead b) from h)
+    obtain ⟨h1, h2, h3, h4, h5, h6, h7, h8, h9⟩ := (show Sim T (dropDead a) (dropDead b) from h)
     obtain ⟨a1, a2, a3, a4, a5, a6, a7, _⟩ := dropDead_fields a
     obtain ⟨b1, b2, b3, b4, b5, b6, b7, _⟩ := dropDead_fields b
     rw [a1, b1] at h1; rw [a2, b2] at h2; rw [a4, b4] at h4; rw [a5, b5] at h5; rw [a6, b6] at h6
     rw [a7, b7] at h7
-    refine ⟨h1, h2, hst, h4, h5, h6, h7, fun hr => ?_⟩
+    rw [dropDead_expCut, dropDead_expCut] at h9
+    refine ⟨h1, h2, hst, h4, h5, h6, h7, fun hr => ?_, h9⟩
     rw [dropDead_running hr, dropDead_running (hst ▸ hr)] at h8
     exact h8
-  · rintro ⟨h1, h2, h3, h4, h5, h6, h7, h8⟩
+  · rintro ⟨h1, h2, h3, h4, h5, h6, h7, h8, h9⟩
     by_cases hr : a.status = "running"
-    · exact (Sim.mk h1 h2 h3 h4 h5 h6 h7 (h8 hr)).agree
+    · exact (Sim.mk h1 h2 h3 h4 h5 h6 h7 (h8 hr) h9).agree
     · show Sim T (dropDead a) (dropDead b)
       rw [dropDead_dead hr, dropDead_dead (h3 ▸ hr)]
-      exact ⟨h1, h2, h3, h4, h5, h6, h7, rfl⟩
+      exact ⟨h1, h2, h3, h4, h5, h6, h7, rfl, h9⟩
 
 /-- the traces of two runs that continue from `oa` / `ob` with the SAME new records (newest first) -/
 def SplitAt (oa ob : List String) (ta tb : List String) : Prop := ∃ new, ta = new ++ oa ∧ tb = new ++ ob
@@ -1310,8 +1327,8 @@ theorem splitAt_cons (oa ob : List String) (r : String) (l1 l2 : List String) (h
 /-- change the trace relation of an `Agrees` pair -/
 theorem Agrees.retrace {T' : List String → List String → Prop} {a b : St} (h : Agrees T a b)
     (ht : T' a.trace b.trace) : Agrees T' a b := by
-  obtain ⟨h1, h2, h3, h4, h5, h6, _, h8⟩ := (agree_iff a b).1 h
-  exact (agree_iff a b).2 ⟨h1, h2, h3, h4, h5, h6, ht, h8⟩
+  obtain ⟨h1, h2, h3, h4, h5, h6, _, h8, h9⟩ := (agree_iff a b).1 h
+  exact (agree_iff a b).2 ⟨h1, h2, h3, h4, h5, h6, ht, h8, h9⟩
 
 theorem trRel_refl_startTag (m : Machine) (l : List String) : TrRel (StartTag m) l l :=
   TrRel.refl (StartTag.refl m) l
